@@ -923,9 +923,30 @@ pub fn fmtlist(path: &str) {
 // ---------------------------------------------------------------------------------------------
 // C18: recursive families
 // ---------------------------------------------------------------------------------------------
+/// `vh flat1 <family> <n>`: replay of a flat-family measurement (time(4n) against time(n), best of three).
+pub fn flat1(fam: &str, n: usize) -> bool {
+    let cfg = Cfg { tab: 2, width: 80, blank: 2, reorder: true };
+    let measure = |k: usize| -> f64 {
+        let src = crate::gens::flat_case(fam, k);
+        let source = Source::detached(src);
+        let mut best = f64::MAX;
+        for _ in 0..3 {
+            let t0 = Instant::now();
+            let _ = crate::observe(&source, cfg);
+            best = best.min(t0.elapsed().as_secs_f64());
+        }
+        best
+    };
+    let (ta, tb) = (measure(n), measure(4 * n));
+    let bad = tb / ta > 9.0 && tb > 0.3;
+    println!("{} flat family {}: {} repetitions {:.3}s, {} repetitions {:.3}s, ratio {:.1} (proportional work gives about 4)", if bad { "FAIL" } else { "PASS" }, fam, n, ta, 4 * n, tb, tb / ta);
+    !bad
+}
+
 fn perf(tier: &str, outdir: &str) {
     std::fs::create_dir_all(outdir).unwrap();
     let maxd = if tier == "thorough" { 400 } else { 48 };
+    let flat_thorough = tier == "thorough";
     let mut st = Stats::default();
     let mut fails = vec![];
     let f = std::fs::File::create(format!("{}/cases.0.txt", outdir)).unwrap();
@@ -1013,8 +1034,58 @@ fn perf(tier: &str, outdir: &str) {
             }
             table.push(format!("{}: {}", fam, pts.iter().map(|p| format!("d{}={}c/{}n/{:.1}ms", p.0, p.1, p.2, p.3 * 1e3)).collect::<Vec<_>>().join(" ")));
         }
+        // flat families: time(4n) against time(n) for one construct repeated at a single level
+        let bases: &[usize] = if flat_thorough { &[30_000, 60_000] } else { &[30_000] };
+        for fam in crate::gens::FLAT_FAMILIES {
+            for &n in bases {
+                let cfg = Cfg { tab: 2, width: 80, blank: 2, reorder: true };
+                let measure = |k: usize| -> Option<(f64, u64, u64, usize)> {
+                    let src = crate::gens::flat_case(fam, k);
+                    let source = Source::detached(src.clone());
+                    if source.root().erroneous() {
+                        return None;
+                    }
+                    let nodes = ser::tree_size(source.root()) as u64;
+                    let t0 = Instant::now();
+                    let ob = crate::observe(&source, cfg).ok()?;
+                    Some((t0.elapsed().as_secs_f64(), ob.count, nodes, src.len()))
+                };
+                let (Some(a), Some(b)) = (measure(n), measure(4 * n)) else {
+                    fails.push(fail_json("C18", "flat", n as u64, &format!("flat family {} x {}", fam, n), cfg, "no-output", "panic, refusal or syntax error", ""));
+                    st.failures += 1;
+                    continue;
+                };
+                st.evaluated += 2;
+                st.distinct.insert(crate::hash_str_pub(&format!("flat {} {}", fam, n)));
+                st.nontrivial.insert(crate::hash_str_pub(&format!("flat {} {}", fam, n)));
+                *st.by_gen.entry("flat".into()).or_default() += 2;
+                if b.1 > 2 * b.2 {
+                    st.failures += 1;
+                    fails.push(fail_json("C18", "flat", n as u64, &format!("flat family {} x {}", fam, 4 * n), cfg, "linear", &format!("{} conversions for {} nodes", b.1, b.2), ""));
+                    continue;
+                }
+                let (mut ta, mut tb) = (a.0, b.0);
+                let mut tries = 0;
+                // a suspicious ratio is re-measured (best of four) before it counts
+                while tb / ta > 9.0 && tb > 0.3 && tries < 3 {
+                    if let (Some(a2), Some(b2)) = (measure(n), measure(4 * n)) {
+                        ta = ta.min(a2.0);
+                        tb = tb.min(b2.0);
+                    }
+                    tries += 1;
+                }
+                table.push(format!("{} {}->{}: {:.0}->{:.0}ms x{:.1}", fam, n, 4 * n, ta * 1e3, tb * 1e3, tb / ta));
+                if tb / ta > 9.0 && tb > 0.3 {
+                    st.failures += 1;
+                    fails.push(fail_json("C18", "flat", n as u64, &format!("flat family {} x {} (generated by `vh flat {} {}`)", fam, 4 * n, fam, 4 * n), cfg, "time",
+                        &format!("flat family {}: time grew {:.1}x from {} to {} repetitions ({:.3}s -> {:.3}s; proportional work gives about 4x)", fam, tb / ta, n, 4 * n, ta, tb), ""));
+                }
+            }
+        }
         w.flush().unwrap();
-        st.samples = table.into_iter().take(4).collect();
+        let nflat = crate::gens::FLAT_FAMILIES.len() * bases.len();
+        let k = table.len() - nflat.min(table.len());
+        st.samples = vec![format!("flat families, time(n) -> time(4n): {}", table[k..].join("; ")), table[..k].first().cloned().unwrap_or_default()];
         (st, fails)
     });
     let (st, fails) = h.unwrap().join().unwrap();
